@@ -379,7 +379,12 @@ fn apply_inner(p: &Prog, cands: &[Cand], m: &mut Model, a: &Action, k_idx: usize
                         // nothing removed although the designator's breakpoint exists
                         if or.projection {
                             let when = if m.exited { "after-exit" } else if !m.started { "before-start" } else { "while-stopped" };
-                            f.push(Finding { sig: format!("{prop}:remove:existing-breakpoint-not-removed:{when}"), detail: format!("[{}] {}: the breakpoint of this designator is listed, the debugger removed nothing ({res})", p.name(), hist(k)) });
+                            let kind = match &cands[*c] {
+                                Cand::Addr(_) => "by-address",
+                                Cand::Line(_) => "by-line",
+                                Cand::Fn(_) => "by-function",
+                            };
+                            f.push(Finding { sig: format!("{prop}:remove:existing-breakpoint-not-removed:{when}:{kind}"), detail: format!("[{}] {}: the breakpoint of this designator is listed, the debugger removed nothing ({res})", p.name(), hist(k)) });
                         }
                     } else {
                         normalize_forms(m);
